@@ -643,7 +643,8 @@ class ValuedRooms(Combinator[Tuple[RoomsType, List[T]]]):
         d = data[idx]
         if not isinstance(d, tuple) or len(d) != 2:
             return None
-        rooms, values = list(map(list, zip(*sorted(zip(*d)))))
+        # deserialize numbers the rooms by their first cell in row-major order
+        rooms, values = list(map(list, zip(*sorted(zip(*d), key=lambda rv: min(rv[0])))))
 
         combinator = Tupl(self._room_combinator, Seq(self._value_combinator, len(rooms)))
         res = combinator.serialize(env, [([rooms], [values])], 0)
